@@ -526,6 +526,15 @@ func parseGen(tier string, r *rng, emit func(string)) {
 		src(strings.Join(toks, ""))
 	}
 	src("")
+	// what ends a comment and what follows it: every separator byte after every comment shape, followed by a token,
+	// another comment or the end of the input (the parser relies on the lexer's newline flags there)
+	for _, sep := range []string{"\n", "\r", "\r\n", "\t", "\v", "\f", " ", "\x00", "\u0085", "\u2028", ""} {
+		for _, c := range []string{"//", "// c", "//c //d", "/* c */", "/**/", "/* a\nb */", "x = 1 // set x", "f( // arg", "[1, // one", "a /* c */"} {
+			for _, next := range []string{"1", "y = 2", "// d", "/* e */", ")", "]", "", "\n1"} {
+				src(c + sep + next)
+			}
+		}
+	}
 	// exhaustive short token sequences
 	for k := 1; k <= 2; k++ {
 		seqsOver(tokAlphabet, k, both)
@@ -692,6 +701,12 @@ func parse15Gen(tier string, r *rng, emit func(string)) {
 				emit(hx(s[:k]))
 			}
 		}
+	}
+	// fixed programs whose prefixes are the repaired C15 witnesses and their neighbours: `/*/`, `/**`, `/*/ x`,
+	// `a /*/` (unterminated comments ending in a star or slash), `[()`, `f(()`, `x = ()` (empty parameter list)
+	for _, s := range []string{"/*/ x */", "/** x */", "/**/", "/***/", "a /*/ b */", "/*/ x */ a", "a /*/ b */ c", "[/*/ */ 1]",
+		"[() => 1]", "f(() => 1)", "x = () => 1", "() => 1", "[(() => 1)]", "{1: () => 2}"} {
+		emitCuts(s, 0)
 	}
 	n := 1200
 	if thorough {
